@@ -1,28 +1,46 @@
 #!/bin/bash
 # run.sh <ID> [quick|thorough]  -- rebuilds the checker against /repo's current working tree, then runs the check.
 # exit 0: property held on everything explored; 1: VIOLATION line(s) printed; 2: harness/build error.
+# Checks that need scheduling points / loop fuel / package-global snapshots (SHADOW list) are built from an
+# instrumented overlay of the tree under test (cmd/vinstr + go build -tags verif -overlay); /repo is never modified.
 # Developer mode: VERIF_REPO=<dir> checks a scratch copy instead of /repo (evidence/replays then go to
 # $VERIF_OUT, default /tmp/verif-alt-out, never to /verif/evidence).
 set -u
 cd "$(dirname "$0")"
 export GOFLAGS=-mod=mod GOPROXY=off GOSUMDB=off GOTOOLCHAIN=local
 ID="$1"; TIER="${2:-${VERIF_TIER:-quick}}"
+SHADOW=" C04 C18 "
 mkdir -p bin evidence
-BIN=bin/vcheck
+SRC=/repo
+SUF=""
 MODARGS=""
 if [ -n "${VERIF_REPO:-}" ]; then
+  SRC="$VERIF_REPO"
   ALT=$(echo -n "$VERIF_REPO" | md5sum | cut -c1-8)
   sed "s#=> /repo#=> $VERIF_REPO#" go.mod > bin/alt-$ALT.mod
   cp go.sum bin/alt-$ALT.sum
   MODARGS="-modfile=bin/alt-$ALT.mod"
-  BIN=bin/vcheck-alt-$ALT
+  SUF="-alt-$ALT"
   export VERIF_DIR="${VERIF_OUT:-/tmp/verif-alt-out}"
   mkdir -p "$VERIF_DIR"
   cp known_findings.json "$VERIF_DIR/" 2>/dev/null
 fi
-if ! go build $MODARGS -o $BIN ./cmd/vcheck 2> bin/build.log; then
+fail_build() {
   echo "BUILD-ERROR: the checker does not build against the tree under test" >&2
   tail -30 bin/build.log >&2
   exit 2
+}
+if [[ "$SHADOW" == *" $ID "* ]]; then
+  OV=bin/overlay$SUF
+  rm -rf "$OV"
+  go run ./cmd/vinstr -src "$SRC" -out "$OV" > bin/vinstr.log 2>&1 || { cat bin/vinstr.log >&2; echo "BUILD-ERROR: instrumentation failed" >&2; exit 2; }
+  BIN=bin/vcheck-shadow$SUF
+  go build $MODARGS -tags verif -overlay "$OV/overlay.json" -o $BIN ./cmd/vcheck 2> bin/build.log || fail_build
+  if [ "$ID" = "C18" ]; then
+    go build $MODARGS -race -tags verif -overlay "$OV/overlay.json" -o bin/vcheck-race ./cmd/vcheck 2> bin/build.log || fail_build
+  fi
+else
+  BIN=bin/vcheck$SUF
+  go build $MODARGS -o $BIN ./cmd/vcheck 2> bin/build.log || fail_build
 fi
 exec ./$BIN "$ID" --tier "$TIER"
